@@ -763,6 +763,108 @@ def c08_pipelines(chk, tier):
     chk.cov["pipeline_scenarios"] = len(scns)
 
 
+def c07_pipelines(chk, tier, explicit=None):
+    """C07 where the process that cannot be created is a command of a pipeline: whatever the terminator, afterwards no
+    child of the attempt is left as a zombie or running -- the process forked for the failing command never (detached or
+    not), the commands started before it unless the pipeline was detached"""
+    r = C.Rng(chk.seed * 11 + 7)
+    tpls = explicit if explicit is not None else gen_c14(r, 90 if tier == "quick" else 0, tier)
+    for i, t in enumerate(tpls):
+        t["id"] = "c07-pl-%d" % i
+    scns = [scenario_of(t) for t in tpls]
+    e2.run_scenarios(scns, "C07pl")
+    n_ok = 0
+    for s in scns:
+        t = s["tpl"]
+        k = t["failk"]
+        if s.get("timed_out") or s.get("rc") != 0:
+            chk.violation("C07: a pipeline whose command %d cannot be started did not return [%s]" % (k, describe(t)), "pipeline\n" + tpl_to_json(t))
+            continue
+        bad = []
+        res = out_field(s, "term")
+        if res is None or not res.startswith("err"):
+            bad.append("starting the pipeline returned %s although command %d cannot be started" % (res, k))
+        z = zombies(s)
+        if not t.get("detached") and z is not None and (z[0] or z[1]):
+            bad.append("after the failed start %d zombie(s) and %d running child(ren) of the attempt remain" % z)
+        zp = [int(x) for x in (out_field(s, "zombie_pids") or "").split(",") if x]
+        fk = forks(s)
+        if len(fk) > k and fk[k] in zp:
+            bad.append("the process forked for the command that could not be started was left as a zombie%s" % (" (detached)" if t.get("detached") else ""))
+        if bad:
+            chk.violation("C07: %s [%s]" % ("; ".join(bad), describe(t)), "pipeline\n" + tpl_to_json(t))
+        else:
+            n_ok += 1
+    chk.cov["evaluations"] = chk.cov.get("evaluations", 0) + len(scns)
+    chk.cov["traces_validated_against_impl"] = chk.cov.get("traces_validated_against_impl", 0) + n_ok
+    chk.cov["pipeline_scenarios"] = len(scns)
+
+
+def c09_real(chk, tier, explicit=None):
+    """C09 on real processes: children that exit with every code / die of every fatal signal; the status join() and
+    capture() report is compared with the cause (the property's words) and with Lib/Status.v applied to the raw status
+    the kernel handed to waitpid (the tie of decode_exit_status to real wait statuses); the options passed to
+    waitpid must be the two the model knows (none, WNOHANG)"""
+    if explicit is not None:
+        tpls = explicit
+    else:
+        codes = list(range(256)) if tier != "quick" else [0, 1, 2, 3, 9, 15, 42, 100, 126, 127, 128, 129, 137, 143, 200, 254, 255]
+        sigs = [1, 2, 3, 4, 5, 6, 7, 8, 9, 10, 11, 12, 13, 14, 15, 16, 24, 25, 26, 27, 30, 31, 34, 35, 50, 64]
+        if tier == "quick":
+            sigs = [1, 2, 3, 6, 9, 11, 13, 14, 15, 31, 34, 64]
+        tpls = []
+        q = 0
+        for term in ("join", "capture"):
+            for c in codes:
+                tpls.append({"id": "c09r-%d" % q, "kind": "handle", "n": 1, "term": term, "stub": [["exit %d" % c]], "want": "exited:%d" % c, "watchdog": 10})
+                q += 1
+            for g in sigs:
+                tpls.append({"id": "c09r-%d" % q, "kind": "handle", "n": 1, "term": term, "stub": [["raise %d" % g, "exit 99"]], "want": "signaled:%d" % g, "watchdog": 10})
+                q += 1
+    scns = [scenario_of(t) for t in tpls]
+    e2.run_scenarios(scns, "C09real")
+    raws, idx = [], []
+    n_ok = 0
+    for s in scns:
+        t = s["tpl"]
+        what = "%s %s of a child that does '%s'" % (t["id"], t["term"], t["stub"][0][0])
+        if s.get("timed_out") or s.get("rc") != 0:
+            chk.violation("C09: the wait for a real child did not complete [%s]" % what, "real\n" + tpl_to_json(t))
+            continue
+        res = out_field(s, "term") or ""
+        got = kv_of(res).get("status")
+        bad = []
+        if not res.startswith("ok") or got != t["want"]:
+            bad.append("reported %s, the child's real termination cause is %s" % (res[:80], t["want"]))
+        raw = None
+        for ln in parent_log(s):
+            p = ln.split()
+            if p[0] == "waitpid":
+                if int(p[2]) not in (0, 1):
+                    bad.append("waitpid was called with options %s (the model knows none and WNOHANG)" % p[2])
+                m = re.search(r"st=(-?\d+)", ln)
+                if m:
+                    raw = int(m.group(1)) & 0xffffffff
+        if raw is None:
+            bad.append("no waitpid of the library collected the child")
+        else:
+            raws.append(raw)
+            idx.append((s, got))
+        if bad:
+            chk.violation("C09: %s [%s]" % ("; ".join(bad), what), "real\n" + tpl_to_json(t))
+        else:
+            n_ok += 1
+    ties = []
+    for (s, got), ml in zip(idx, X.sppure(["status %d" % r_ for r_ in raws]) if raws else []):
+        if got is not None and ml.strip() != got:
+            ties.append("raw status %s: implementation %s, Lib/Status.v %s" % (s["id"], got, ml.strip()))
+    if ties:
+        chk.tie_broken("E2 (real wait statuses): %d of %d disagree with Lib/Status.v; e.g. %s" % (len(ties), len(raws), ties[0]))
+    chk.cov["evaluations"] = chk.cov.get("evaluations", 0) + len(scns)
+    chk.cov["traces_validated_against_impl"] = chk.cov.get("traces_validated_against_impl", 0) + n_ok - len(ties)
+    chk.cov["real_process_statuses"] = len(scns)
+
+
 def gen_c01_real(tier):
     """communicate-style exchanges with real processes: the consumer of a pipeline leaves early, a command does not
     read (all of) the input it is fed, outputs alternate between the streams above the pipe capacity"""
